@@ -86,7 +86,8 @@ def sweep(ctx):
         G.g2_name_swap(ctx, sec, rule=pre2 + "G2")
         G.g2b_role_tokens(ctx, sec, rule=pre2 + "G2b")
         G.g12_dead_parameter(ctx, sec, rule=pre2 + "G12")
-        G.g13_inplace_alias(ctx, sec, rule=pre2 + "G13")
-        G.g14_exact_compare(ctx, sec, rule=pre2 + "G14")
+        if pid != "C14":     # configuration-path independence is about options and their forwarding, not about aliasing or rounding
+            G.g13_inplace_alias(ctx, sec, rule=pre2 + "G13")
+            G.g14_exact_compare(ctx, sec, rule=pre2 + "G14")
         G.g15_leaked_loop_variable(ctx, sec, rule=pre2 + "G15")
         G.g17_keyword_namesake(ctx, sec, rule=pre2 + "G17")
